@@ -329,10 +329,11 @@ impl<D: HData> Stream for RangeStream<D> {
         };
         this.chunks += 1;
         // a plan whose sizes all come out as 0 near the end of a range (e.g. Rem(k) with <= k bytes
-        // left) must not yield empty chunks forever: the entity contract requires progress
+        // left) must not yield empty chunks forever: the entity contract requires progress. Runs
+        // of empty chunks that the plan spells out are honoured.
         let want = if want == 0 {
             this.empty_run += 1;
-            if this.empty_run > 3 { remaining } else { 0 }
+            if this.empty_run > plan.sizes.len() as u32 + 3 { remaining } else { 0 }
         } else {
             this.empty_run = 0;
             want
